@@ -1,4 +1,529 @@
-//! Operations beyond plain decoding (to-be-signed data, verification helpers, builders).
-pub fn run(_p: &[&str]) -> String {
-    "BADOP ops".into()
+//! Operations beyond plain decoding: struct-literal values, to-be-signed data, verification
+//! helpers, builder call sequences.
+use coset::cbor::value::Value;
+use coset::*;
+
+#[path = "history.rs"]
+pub mod history;
+
+fn unhex(s: &str) -> Vec<u8> {
+    if s == "-" || s.is_empty() {
+        return vec![];
+    }
+    hex::decode(s).expect("hex")
+}
+
+fn err_name(e: &CoseError) -> &'static str {
+    match e {
+        CoseError::DecodeFailed(_) => "DecodeFailed",
+        CoseError::DuplicateMapKey => "DuplicateMapKey",
+        CoseError::EncodeFailed => "EncodeFailed",
+        CoseError::ExtraneousData => "ExtraneousData",
+        CoseError::OutOfRangeIntegerValue => "OutOfRangeIntegerValue",
+        CoseError::UnexpectedItem(_, _) => "UnexpectedItem",
+        CoseError::UnregisteredIanaValue => "UnregisteredIanaValue",
+        CoseError::UnregisteredIanaNonPrivateValue => "UnregisteredIanaNonPrivateValue",
+    }
+}
+
+fn enc<T: CborSerializable>(v: T) -> String {
+    match v.to_vec() {
+        Ok(b) => format!("OK {}", hex::encode(b)),
+        Err(e) => format!("ERR {}", err_name(&e)),
+    }
+}
+
+fn flag<'a>(flags: &'a [&'a str], name: &str) -> Option<&'a str> {
+    for f in flags {
+        if *f == name {
+            return Some("");
+        }
+        if let Some(rest) = f.strip_prefix(name) {
+            if let Some(v) = rest.strip_prefix('=') {
+                return Some(v);
+            }
+        }
+    }
+    None
+}
+
+fn labels(spec: &str) -> Vec<Label> {
+    if spec == "-" {
+        return vec![];
+    }
+    spec.split(',')
+        .map(|s| {
+            let (k, rest) = s.split_at(1);
+            match k {
+                "t" => Label::Text(String::from_utf8(unhex(rest)).unwrap()),
+                _ => Label::Int(rest.parse().unwrap()),
+            }
+        })
+        .collect()
+}
+
+fn claim_names(spec: &str) -> Vec<cwt::ClaimName> {
+    use coset::iana::EnumI64;
+    if spec == "-" {
+        return vec![];
+    }
+    spec.split(',')
+        .map(|s| {
+            let (k, rest) = s.split_at(1);
+            match k {
+                "t" => cwt::ClaimName::Text(String::from_utf8(unhex(rest)).unwrap()),
+                "a" => cwt::ClaimName::Assigned(iana::CwtClaimName::from_i64(rest.parse().unwrap()).unwrap()),
+                _ => cwt::ClaimName::PrivateUse(rest.parse().unwrap()),
+            }
+        })
+        .collect()
+}
+
+/// `encode_literal <T> <flags> <labels>`: a struct literal with the named typed fields populated
+/// and the given extra labels (all with value null), encoded with to_vec.
+fn encode_literal(p: &[&str]) -> String {
+    let flags: Vec<&str> = if p[1] == "-" { vec![] } else { p[1].split(',').collect() };
+    match p[0] {
+        "Header" => {
+            let h = Header {
+                alg: flag(&flags, "alg").map(|_| Algorithm::Assigned(iana::Algorithm::ES256)),
+                crit: if flag(&flags, "crit").is_some() {
+                    vec![RegisteredLabel::Assigned(iana::HeaderParameter::Alg)]
+                } else {
+                    vec![]
+                },
+                content_type: flag(&flags, "ct").map(|_| ContentType::Assigned(iana::CoapContentFormat::Cbor)),
+                key_id: flag(&flags, "kid").map(unhex).unwrap_or_default(),
+                iv: flag(&flags, "iv").map(unhex).unwrap_or_default(),
+                partial_iv: flag(&flags, "piv").map(unhex).unwrap_or_default(),
+                counter_signatures: vec![],
+                rest: labels(p[2]).into_iter().map(|l| (l, Value::Null)).collect(),
+            };
+            enc(h)
+        }
+        "CoseKey" => {
+            let mut k = CoseKey {
+                kty: KeyType::Assigned(iana::KeyType::EC2),
+                key_id: flag(&flags, "kid").map(unhex).unwrap_or_default(),
+                alg: flag(&flags, "alg").map(|_| Algorithm::Assigned(iana::Algorithm::ES256)),
+                base_iv: flag(&flags, "biv").map(unhex).unwrap_or_default(),
+                params: labels(p[2]).into_iter().map(|l| (l, Value::Null)).collect(),
+                ..Default::default()
+            };
+            if flag(&flags, "ops").is_some() {
+                k.key_ops.insert(KeyOperation::Assigned(iana::KeyOperation::Sign));
+            }
+            if let Some(ord) = flag(&flags, "canon") {
+                k.canonicalize(if ord == "lex" { CborOrdering::Lexicographic } else { CborOrdering::LengthFirstLexicographic });
+            }
+            enc(k)
+        }
+        "ClaimsSet" => {
+            let c = cwt::ClaimsSet {
+                issuer: flag(&flags, "iss").map(|h| String::from_utf8(unhex(h)).unwrap()),
+                expiration_time: flag(&flags, "exp").map(|n| cwt::Timestamp::WholeSeconds(n.parse().unwrap())),
+                cwt_id: flag(&flags, "cti").map(unhex),
+                rest: claim_names(p[2]).into_iter().map(|l| (l, Value::Null)).collect(),
+                ..Default::default()
+            };
+            enc(c)
+        }
+        other => format!("BADTYPE {}", other),
+    }
+}
+
+fn cmp_canonical(p: &[&str]) -> String {
+    let l = labels(p[0]);
+    format!("{:?}", l[0].cmp_canonical(&l[1]))
+}
+
+pub fn run(p: &[&str]) -> String {
+    match p[0] {
+        "encode_literal" => encode_literal(&p[1..]),
+        "cmp_canonical" => cmp_canonical(&p[1..]),
+        "structures" => structures(&p[1..]),
+        "api" => api(&p[1..]),
+        "cmp" => { let l = labels(p[1]); format!("{:?}", l[0].cmp(&l[1])) }
+        "canonical_check" => canonical_check(&p[1..]),
+        "free_structures" => free_structures(&p[1..]),
+        "history" => history::run(&p[1..]),
+        other => format!("BADOP {}", other),
+    }
+}
+
+// ------------------------------------------------------------------------------------------
+// Native differential replays for the structure / history jobs.  The reference side is built
+// directly as a ciborium Value from RFC 8152's definitions and serialised by ciborium.
+
+fn ser(v: &Value) -> Vec<u8> {
+    let mut out = Vec::new();
+    coset::cbor::ser::into_writer(v, &mut out).unwrap();
+    out
+}
+
+fn reference(ctx: &str, protected: &[Vec<u8>], tail: &[&[u8]]) -> Vec<u8> {
+    let mut a = vec![Value::Text(ctx.to_string())];
+    for p in protected {
+        a.push(Value::Bytes(p.clone()));
+    }
+    for t in tail {
+        a.push(Value::Bytes(t.to_vec()));
+    }
+    ser(&Value::Array(a))
+}
+
+/// What RFC 8152 puts in the protected slot for this in-memory protected header.
+fn prot_bytes(p: &ProtectedHeader) -> Vec<u8> {
+    match &p.original_data {
+        Some(d) => d.clone(),
+        None => {
+            if p.header == Header::default() {
+                vec![]
+            } else {
+                p.header.clone().to_vec().unwrap()
+            }
+        }
+    }
+}
+
+fn strip_header(h: &mut Header) {
+    for s in h.counter_signatures.iter_mut() {
+        strip_sig(s);
+    }
+}
+fn strip_prot(p: &mut ProtectedHeader) {
+    p.original_data = None;
+    strip_header(&mut p.header);
+}
+fn strip_sig(s: &mut CoseSignature) {
+    strip_prot(&mut s.protected);
+    strip_header(&mut s.unprotected);
+}
+fn strip_rcpt(r: &mut CoseRecipient) {
+    strip_prot(&mut r.protected);
+    strip_header(&mut r.unprotected);
+    for x in r.recipients.iter_mut() {
+        strip_rcpt(x);
+    }
+}
+
+const AAD: &[u8] = b"external-aad";
+const DET: &[u8] = b"detached-payload";
+
+fn catch<F: FnOnce() -> R + std::panic::UnwindSafe, R>(f: F) -> Option<R> {
+    std::panic::catch_unwind(f).ok()
+}
+
+fn structures(p: &[&str]) -> String {
+    let built = p[1] == "built";
+    let data = unhex(p[2]);
+    let mut bad: Vec<String> = vec![];
+    macro_rules! check {
+        ($what:expr, $got:expr, $want:expr) => {
+            if $got != $want {
+                bad.push(format!("{} got={} want={}", $what, hex::encode(&$got), hex::encode(&$want)));
+            }
+        };
+    }
+    match p[0] {
+        "CoseSign1" => {
+            let mut x = match CoseSign1::from_slice(&data) { Ok(x) => x, Err(_) => return "REJECTED".into() };
+            if built { strip_prot(&mut x.protected); strip_header(&mut x.unprotected); }
+            let pb = prot_bytes(&x.protected);
+            let emb = x.payload.clone().unwrap_or_default();
+            let want = reference("Signature1", &[pb.clone()], &[AAD, &emb]);
+            check!("tbs_data", x.tbs_data(AAD), want);
+            let mut seen = (vec![], vec![]);
+            let _ = x.verify_signature(AAD, |s, d| -> Result<(), ()> { seen = (s.to_vec(), d.to_vec()); Ok(()) });
+            check!("verify_signature.data", seen.1, want);
+            check!("verify_signature.sig", seen.0, x.signature);
+            let y = x.clone();
+            let r = catch(move || y.tbs_detached_data(DET, AAD));
+            if x.payload.is_some() {
+                if r.is_some() { bad.push("tbs_detached_data accepted embedded payload".into()); }
+            } else {
+                let wantd = reference("Signature1", &[pb], &[AAD, DET]);
+                match r { Some(g) => check!("tbs_detached_data", g, wantd), None => bad.push("tbs_detached_data panicked".into()) }
+            }
+        }
+        "CoseSign" => {
+            let mut x = match CoseSign::from_slice(&data) { Ok(x) => x, Err(_) => return "REJECTED".into() };
+            if built { strip_prot(&mut x.protected); strip_header(&mut x.unprotected); for s in x.signatures.iter_mut() { strip_sig(s); } }
+            let pb = prot_bytes(&x.protected);
+            let emb = x.payload.clone().unwrap_or_default();
+            for (i, s) in x.signatures.iter().enumerate() {
+                let want = reference("Signature", &[pb.clone(), prot_bytes(&s.protected)], &[AAD, &emb]);
+                check!(format!("tbs_data[{}]", i), x.tbs_data(AAD, s), want);
+                let mut seen = (vec![], vec![]);
+                let _ = x.verify_signature(i, AAD, |sg, d| -> Result<(), ()> { seen = (sg.to_vec(), d.to_vec()); Ok(()) });
+                check!(format!("verify_signature[{}].data", i), seen.1, want);
+                check!(format!("verify_signature[{}].sig", i), seen.0, s.signature);
+                if x.payload.is_none() {
+                    let wantd = reference("Signature", &[pb.clone(), prot_bytes(&s.protected)], &[AAD, DET]);
+                    check!(format!("tbs_detached_data[{}]", i), x.tbs_detached_data(DET, AAD, s), wantd);
+                }
+            }
+            let y = x.clone();
+            let n = x.signatures.len();
+            if catch(move || y.verify_signature(n, AAD, |_, _| -> Result<(), ()> { Ok(()) })).is_some() {
+                bad.push("verify_signature(len) did not panic".into());
+            }
+        }
+        "CoseMac0" | "CoseMac" => {
+            let (prot, payload, tag, ctxs): (ProtectedHeader, Option<Vec<u8>>, Vec<u8>, &str);
+            let mut seen = (vec![], vec![]);
+            let called: Option<()>;
+            if p[0] == "CoseMac0" {
+                let mut x = match CoseMac0::from_slice(&data) { Ok(x) => x, Err(_) => return "REJECTED".into() };
+                if built { strip_prot(&mut x.protected); }
+                prot = x.protected.clone(); payload = x.payload.clone(); tag = x.tag.clone(); ctxs = "MAC0";
+                let mut s2 = (vec![], vec![]);
+                called = catch(std::panic::AssertUnwindSafe(|| { let _ = x.verify_tag(AAD, |t, d| -> Result<(), ()> { s2 = (t.to_vec(), d.to_vec()); Ok(()) }); }));
+                seen = s2;
+            } else {
+                let mut x = match CoseMac::from_slice(&data) { Ok(x) => x, Err(_) => return "REJECTED".into() };
+                if built { strip_prot(&mut x.protected); }
+                prot = x.protected.clone(); payload = x.payload.clone(); tag = x.tag.clone(); ctxs = "MAC";
+                let mut s2 = (vec![], vec![]);
+                called = catch(std::panic::AssertUnwindSafe(|| { let _ = x.verify_tag(AAD, |t, d| -> Result<(), ()> { s2 = (t.to_vec(), d.to_vec()); Ok(()) }); }));
+                seen = s2;
+            }
+            match payload {
+                None => if called.is_some() { bad.push("verify_tag without payload did not panic".into()); },
+                Some(pl) => {
+                    if called.is_none() { bad.push("verify_tag panicked".into()); }
+                    let want = reference(ctxs, &[prot_bytes(&prot)], &[AAD, &pl]);
+                    check!("verify_tag.data", seen.1, want);
+                    check!("verify_tag.tag", seen.0, tag);
+                }
+            }
+        }
+        "CoseEncrypt0" | "CoseEncrypt" | "CoseRecipient" => {
+            let names = [("Encrypt", EncryptionContext::CoseEncrypt), ("Encrypt0", EncryptionContext::CoseEncrypt0),
+                         ("Enc_Recipient", EncryptionContext::EncRecipient), ("Mac_Recipient", EncryptionContext::MacRecipient),
+                         ("Rec_Recipient", EncryptionContext::RecRecipient)];
+            if p[0] == "CoseRecipient" {
+                let mut x = match CoseRecipient::from_slice(&data) { Ok(x) => x, Err(_) => return "REJECTED".into() };
+                if built { strip_rcpt(&mut x); }
+                for (i, (name, c)) in names.iter().enumerate() {
+                    let mut seen = (vec![], vec![]);
+                    let r = catch(std::panic::AssertUnwindSafe(|| { let _ = x.decrypt(*c, AAD, |ct, d| -> Result<Vec<u8>, ()> { seen = (ct.to_vec(), d.to_vec()); Ok(vec![]) }); }));
+                    let refuse = x.ciphertext.is_none() || i < 2;
+                    if refuse { if r.is_some() { bad.push(format!("decrypt({}) did not refuse", name)); } continue; }
+                    if r.is_none() { bad.push(format!("decrypt({}) panicked", name)); continue; }
+                    let want = reference(name, &[prot_bytes(&x.protected)], &[AAD]);
+                    check!(format!("decrypt({}).aad", name), seen.1, want);
+                    check!(format!("decrypt({}).ct", name), seen.0, x.ciphertext.clone().unwrap());
+                }
+            } else {
+                let (prot, ct, name): (ProtectedHeader, Option<Vec<u8>>, &str);
+                let mut seen = (vec![], vec![]);
+                let r;
+                if p[0] == "CoseEncrypt0" {
+                    let mut x = match CoseEncrypt0::from_slice(&data) { Ok(x) => x, Err(_) => return "REJECTED".into() };
+                    if built { strip_prot(&mut x.protected); }
+                    prot = x.protected.clone(); ct = x.ciphertext.clone(); name = "Encrypt0";
+                    let mut s2 = (vec![], vec![]);
+                    r = catch(std::panic::AssertUnwindSafe(|| { let _ = x.decrypt(AAD, |c, d| -> Result<Vec<u8>, ()> { s2 = (c.to_vec(), d.to_vec()); Ok(vec![]) }); }));
+                    seen = s2;
+                } else {
+                    let mut x = match CoseEncrypt::from_slice(&data) { Ok(x) => x, Err(_) => return "REJECTED".into() };
+                    if built { strip_prot(&mut x.protected); }
+                    prot = x.protected.clone(); ct = x.ciphertext.clone(); name = "Encrypt";
+                    let mut s2 = (vec![], vec![]);
+                    r = catch(std::panic::AssertUnwindSafe(|| { let _ = x.decrypt(AAD, |c, d| -> Result<Vec<u8>, ()> { s2 = (c.to_vec(), d.to_vec()); Ok(vec![]) }); }));
+                    seen = s2;
+                }
+                match ct {
+                    None => if r.is_some() { bad.push("decrypt without ciphertext did not panic".into()); },
+                    Some(c) => {
+                        if r.is_none() { bad.push("decrypt panicked".into()); }
+                        let want = reference(name, &[prot_bytes(&prot)], &[AAD]);
+                        check!("decrypt.aad", seen.1, want);
+                        check!("decrypt.ct", seen.0, c);
+                    }
+                }
+            }
+        }
+        other => return format!("BADTYPE {}", other),
+    }
+    if bad.is_empty() { "MATCH".into() } else { format!("MISMATCH {}", bad.join(" ; ")) }
+}
+
+fn palette_header(k: u32, salt: u8) -> Header {
+    match k {
+        1 => HeaderBuilder::new().algorithm(iana::Algorithm::ES256).build(),
+        2 => HeaderBuilder::new().key_id(vec![salt, 1]).build(),
+        3 => HeaderBuilder::new().value(1000 + salt as i64, Value::Null).build(),
+        _ => Header::default(),
+    }
+}
+
+/// free_structures <sig|mac|enc> <context index> <body kind> [<sign kind|->]
+/// kinds: w = decoded from the wire (retained bytes h'a10126'), 0..3 = built palette header
+fn free_structures(p: &[&str]) -> String {
+    fn mk(kind: &str, salt: u8) -> ProtectedHeader {
+        if kind == "w" {
+            ProtectedHeader::from_cbor_bstr(Value::Bytes(vec![0xa1, 0x01, 0x26])).unwrap()
+        } else {
+            ProtectedHeader { original_data: None, header: palette_header(kind.parse().unwrap(), salt) }
+        }
+    }
+    let ci: usize = p[1].parse().unwrap();
+    let body = mk(p[2], 1);
+    let pl: &[u8] = b"payload";
+    let (got, want) = match p[0] {
+        "sig" => {
+            let ctxs = [("Signature", SignatureContext::CoseSignature), ("Signature1", SignatureContext::CoseSign1),
+                        ("CounterSignature", SignatureContext::CounterSignature)];
+            let sign = if p.len() > 3 && p[3] != "-" { Some(mk(p[3], 2)) } else { None };
+            let mut prots = vec![prot_bytes(&body)];
+            if let Some(s) = &sign { prots.push(prot_bytes(s)); }
+            (sig_structure_data(ctxs[ci].1, body.clone(), sign.clone(), AAD, pl), reference(ctxs[ci].0, &prots, &[AAD, pl]))
+        }
+        "mac" => {
+            let ctxs = [("MAC", MacContext::CoseMac), ("MAC0", MacContext::CoseMac0)];
+            (mac_structure_data(ctxs[ci].1, body.clone(), AAD, pl), reference(ctxs[ci].0, &[prot_bytes(&body)], &[AAD, pl]))
+        }
+        _ => {
+            let ctxs = [("Encrypt", EncryptionContext::CoseEncrypt), ("Encrypt0", EncryptionContext::CoseEncrypt0),
+                        ("Enc_Recipient", EncryptionContext::EncRecipient), ("Mac_Recipient", EncryptionContext::MacRecipient),
+                        ("Rec_Recipient", EncryptionContext::RecRecipient)];
+            (enc_structure_data(ctxs[ci].1, body.clone(), AAD), reference(ctxs[ci].0, &[prot_bytes(&body)], &[AAD]))
+        }
+    };
+    if got == want { "MATCH".into() } else { format!("MISMATCH got={} want={}", hex::encode(got), hex::encode(want)) }
+}
+
+
+// ------------------------------------------------------------------------------------------
+// C13 / C14: byte-level API against parse-then-convert, natively.
+
+fn registered_tag(t: &str) -> Option<u64> {
+    // RFC 8152 section 2, Table 1
+    match t {
+        "CoseSign" => Some(98),
+        "CoseSign1" => Some(18),
+        "CoseEncrypt" => Some(96),
+        "CoseEncrypt0" => Some(16),
+        "CoseMac" => Some(97),
+        "CoseMac0" => Some(17),
+        _ => None,
+    }
+}
+
+fn show<T: core::fmt::Debug>(r: &Result<T, CoseError>) -> String {
+    match r {
+        Ok(v) => format!("OK {:?}", v),
+        Err(e) => format!("ERR {}", err_name(e)),
+    }
+}
+
+fn api_plain<T: CborSerializable + core::fmt::Debug + Clone>(data: &[u8]) -> String {
+    let direct = T::from_slice(data);
+    let mut rest: &[u8] = data;
+    let layered: Result<T, CoseError> = match coset::cbor::de::from_reader::<Value, _>(&mut rest) {
+        Err(_) => { return if matches!(direct, Err(CoseError::DecodeFailed(_))) { "MATCH".into() } else { format!("MISMATCH unparsable input gave {}", show(&direct)) }; }
+        Ok(v) => {
+            if !rest.is_empty() {
+                return if matches!(direct, Err(CoseError::ExtraneousData)) { "MATCH".into() } else { format!("MISMATCH trailing data gave {}", show(&direct)) };
+            }
+            T::from_cbor_value(v)
+        }
+    };
+    if show(&direct) != show(&layered) {
+        return format!("MISMATCH from_slice={} layered={}", show(&direct), show(&layered));
+    }
+    if let Ok(x) = direct {
+        let a = x.clone().to_vec();
+        let b = x.to_cbor_value().map(|v| ser(&v));
+        match (a, b) {
+            (Ok(a), Ok(b)) => if a != b { return format!("MISMATCH to_vec={} layered={}", hex::encode(a), hex::encode(b)); },
+            (Err(_), Err(_)) => {}
+            _ => return "MISMATCH encode success differs".into(),
+        }
+    }
+    "MATCH".into()
+}
+
+fn api_tagged<T: TaggedCborSerializable + CborSerializable + core::fmt::Debug + Clone>(data: &[u8], tag: u64) -> String {
+    let direct = T::from_tagged_slice(data);
+    let mut rest: &[u8] = data;
+    let layered: Result<T, CoseError> = match coset::cbor::de::from_reader::<Value, _>(&mut rest) {
+        Err(_) => { return if matches!(direct, Err(CoseError::DecodeFailed(_))) { "MATCH".into() } else { format!("MISMATCH unparsable input gave {}", show(&direct)) }; }
+        Ok(v) => {
+            if !rest.is_empty() {
+                return if matches!(direct, Err(CoseError::ExtraneousData)) { "MATCH".into() } else { format!("MISMATCH trailing data gave {}", show(&direct)) };
+            }
+            match v {
+                Value::Tag(t, inner) if t == tag => T::from_cbor_value(*inner),
+                _ => { return if direct.is_err() { "MATCH".into() } else { "MISMATCH item without the registered tag accepted".into() }; }
+            }
+        }
+    };
+    if show(&direct) != show(&layered) {
+        return format!("MISMATCH from_tagged_slice={} layered={}", show(&direct), show(&layered));
+    }
+    if let Ok(x) = direct {
+        let a = x.clone().to_tagged_vec();
+        let b = x.to_cbor_value().map(|v| ser(&Value::Tag(tag, Box::new(v))));
+        match (a, b) {
+            (Ok(a), Ok(b)) => if a != b { return format!("MISMATCH to_tagged_vec={} layered={}", hex::encode(a), hex::encode(b)); },
+            (Err(_), Err(_)) => {}
+            _ => return "MISMATCH encode success differs".into(),
+        }
+    }
+    "MATCH".into()
+}
+
+fn api(p: &[&str]) -> String {
+    let data = unhex(p[2]);
+    if p[1] == "tagged" {
+        let tag = match registered_tag(p[0]) { Some(t) => t, None => return "BADTYPE".into() };
+        return match p[0] {
+            "CoseSign" => api_tagged::<CoseSign>(&data, tag),
+            "CoseSign1" => api_tagged::<CoseSign1>(&data, tag),
+            "CoseMac" => api_tagged::<CoseMac>(&data, tag),
+            "CoseMac0" => api_tagged::<CoseMac0>(&data, tag),
+            "CoseEncrypt" => api_tagged::<CoseEncrypt>(&data, tag),
+            _ => api_tagged::<CoseEncrypt0>(&data, tag),
+        };
+    }
+    match p[0] {
+        "Label" => api_plain::<Label>(&data),
+        "Header" => api_plain::<Header>(&data),
+        "CoseSignature" => api_plain::<CoseSignature>(&data),
+        "CoseSign" => api_plain::<CoseSign>(&data),
+        "CoseSign1" => api_plain::<CoseSign1>(&data),
+        "CoseMac" => api_plain::<CoseMac>(&data),
+        "CoseMac0" => api_plain::<CoseMac0>(&data),
+        "CoseEncrypt" => api_plain::<CoseEncrypt>(&data),
+        "CoseEncrypt0" => api_plain::<CoseEncrypt0>(&data),
+        "CoseRecipient" => api_plain::<CoseRecipient>(&data),
+        "CoseKey" => api_plain::<CoseKey>(&data),
+        "CoseKeySet" => api_plain::<CoseKeySet>(&data),
+        "ClaimsSet" => api_plain::<cwt::ClaimsSet>(&data),
+        "PartyInfo" => api_plain::<PartyInfo>(&data),
+        "SuppPubInfo" => api_plain::<SuppPubInfo>(&data),
+        "CoseKdfContext" => api_plain::<CoseKdfContext>(&data),
+        other => format!("BADTYPE {}", other),
+    }
+}
+
+/// canonical_check <flags incl. canon=lex|len> <labels>: keys of the encoded map must be strictly
+/// ascending under the chosen ordering of their own encodings.
+fn canonical_check(p: &[&str]) -> String {
+    let r = encode_literal(&["CoseKey", p[0], p[1]]);
+    let hexs = match r.strip_prefix("OK ") { Some(h) => h.to_string(), None => return format!("ENCODE {}", r) };
+    let flags: Vec<&str> = p[0].split(',').collect();
+    let len_first = flag(&flags, "canon") == Some("len");
+    let v = Value::from_slice(&unhex(&hexs)).unwrap();
+    let keys: Vec<Vec<u8>> = match v { Value::Map(m) => m.iter().map(|(k, _)| ser(k)).collect(), _ => return "NOTMAP".into() };
+    for w in keys.windows(2) {
+        let ok = if len_first { (w[0].len(), &w[0]) < (w[1].len(), &w[1]) } else { w[0] < w[1] };
+        if !ok {
+            return format!("UNSORTED {}", hexs);
+        }
+    }
+    format!("SORTED {}", hexs)
 }
